@@ -148,6 +148,13 @@ impl Value {
     }
 }
 
+/// Deadline `expires_in` after `now`. A time-to-live too large for the clock (e.g. `EX 9223372036854775807`)
+/// saturates at a far-future instant instead of overflowing.
+pub fn deadline_after(now: Instant, expires_in: Duration) -> Instant {
+    const FAR_FUTURE: Duration = Duration::from_secs(1000 * 365 * 24 * 3600);
+    now.checked_add(expires_in).unwrap_or_else(|| now + FAR_FUTURE)
+}
+
 impl ValueMetadata {
     /// Create new metadata for a value
     pub fn new() -> Self {
@@ -164,7 +171,7 @@ impl ValueMetadata {
     pub fn with_expiration(expires_in: Duration) -> Self {
         let now = Instant::now();
         ValueMetadata {
-            expires_at: Some(now + expires_in),
+            expires_at: Some(deadline_after(now, expires_in)),
             created_at: now,
             last_accessed: now,
             encoding: StringEncoding::Raw,
@@ -185,7 +192,7 @@ impl ValueMetadata {
     
     /// Set expiration time
     pub fn set_expiration(&mut self, expires_in: Duration) {
-        self.expires_at = Some(Instant::now() + expires_in);
+        self.expires_at = Some(deadline_after(Instant::now(), expires_in));
     }
     
     /// Clear expiration
